@@ -170,6 +170,13 @@ pub fn observe_filter(
                 uses: a,
                 list: b,
             },
+            // exactly one of the two refusing the name is neither of the specified outcomes
+            (Ok(_), Err(_)) | (Err(_), Ok(_)) => UsesObs {
+                f: f.clone(),
+                out: "uses-and-uses_list-disagree".into(),
+                uses: false,
+                list: false,
+            },
             _ => UsesObs {
                 f: f.clone(),
                 out: "err".into(),
@@ -280,6 +287,13 @@ pub fn observe_value(
                 out: "ok".into(),
                 uses: a,
                 list: b,
+            },
+            // exactly one of the two refusing the name is neither of the specified outcomes
+            (Ok(_), Err(_)) | (Err(_), Ok(_)) => UsesObs {
+                f: f.clone(),
+                out: "uses-and-uses_list-disagree".into(),
+                uses: false,
+                list: false,
             },
             _ => UsesObs {
                 f: f.clone(),
